@@ -19,6 +19,14 @@ CHECKS = {
             "device packing (MC_C11); TLC judges the attributes of a fresh AirConditioner after refresh() for every raw body (Trace_C11)",
             "Exhaustive in-model check of the temperature rule and the 0xC0 layout; real refresh() results judged by TLC for all raw "
             "temperature bytes x tenths, all setpoint code pairs, all values of each flag byte, all lengths, both check styles.", "5 C11"),
+    "C12": ("TLA+ AcFrame/AcCommand: TLC checks WellFormedCommand and device-side classification for every command kind x "
+            "parameter domain x id (MC_C12); TLC judges every frame emitted by the real library (Trace_C12)",
+            "Exhaustive in-model check over command kinds/parameters; frames from Command.tobytes() over their domains, from every "
+            "public AirConditioner operation against a V2/V3 device, and a >600-command id chain are judged by TLC.", "5 C12"),
+    "C13": ("TLA+ AcReject.tla: TLC enumerates every position x substitute x fix-up on sample frames of all kinds with real CRC-8/sum "
+            "arithmetic (MC_C13); TLC judges before/after state of refresh() fed each corrupted frame (Trace_C13)",
+            "Exhaustive in-model enumeration of single-byte corruptions; the same enumeration replayed into the real refresh() with "
+            "TLC deciding acceptance class and state/online/supported effect. Known finding D6 (dual-check collision, id->0xB0/0xB1).", "5 C13"),
 }
 
 
